@@ -107,7 +107,9 @@ class MasterScheduler(BaseScheduler):
         )
 
         if new in which:
+            current.cancel()
             return
+        new.cancel()
 
         for component in components:
             del self.wakeups[component]
